@@ -75,10 +75,9 @@ func doAclCheck(method string, path string, token *jwt.Token, core *security.Ser
 		action = "write"
 	}
 
-	for _, ac := range acl {
-		if core.CheckGranted(ac, path, action) {
-			return nil
-		}
+	// an explicit deny entry is never overridden by an allow entry
+	if core.IsGranted(acl, path, action) {
+		return nil
 	}
 
 	return echo.NewHTTPError(http.StatusForbidden, "user does not have permission")
